@@ -54,6 +54,7 @@ add("nil-operand-ends-merge","C20","result.go","func (r *Result) MergeAsWarnings
 add("tuple-members-share-path","C09","example_validator.go",'fmt.Sprintf("%s.items[%d].example", path, i)','path+".items.example"',"TRAVERSE:exampleValidator.validateExampleValueSchemaAgainstSchema:recursion:Items.Schemas:path")
 add("visited-set-shared-by-definitions","C09","default_validator.go","\t\t\td.resetVisited()\n\n\t\t\t// validation lazily expands","\t\t\t// validation lazily expands","RESET-BETWEEN:(*defaultValidator).validateDefaultValueValidAgainstSchema", quick=False)
 # C01
+add("format-exempts-from-type","C01","type.go","\tif len(t.Type) == 0 && t.Format != \"\" && (kind == reflect.String || kind == reflect.Slice) {","\tif t.Format != \"\" && (kind == reflect.String || kind == reflect.Slice) {","TYPE-TABLE:typeValidator:draft4", quick=False)
 add("required-skipped-for-empty-object","C01","object_validator.go","\tif len(o.Required) == 0 {\n\t\treturn\n\t}\n","\tif len(o.Required) == 0 || len(val) == 0 {\n\t\treturn\n\t}\n","ROUTING:required:missing-is-an-error", quick=False)
 add("additional-items-without-tuple","C01","slice_validator.go","\t\tif s.AdditionalItems.Schema != nil && itemsSize > 0 {\n","\t\tif s.AdditionalItems.Schema != nil {\n","ROUTING:slice:additionalItems:only-after-tuple", quick=False)
 add("additional-properties-schema-skipped","C01","object_validator.go","\t\tif o.AdditionalProperties == nil || o.AdditionalProperties.Schema == nil {\n","\t\tif o.AdditionalProperties == nil || o.AdditionalProperties.Schema == nil || len(o.PatternProperties) > 0 {\n","ROUTING:object:additionalProperties:schema", quick=False)
